@@ -15,6 +15,9 @@ def nl(l):
 def coq_op(op):
     k = op[0]
     if k == "new":
+        if op[1] in ("combine_on", "combine_on0"):
+            # emit_on = the first input, given as a stream / by position: the same node of the model
+            return "ONew (TCombineOn %d) %s" % (op[2][0], nl(op[2]))
         return "ONew %s %s" % (KIND[op[1]], nl(op[2]))
     if k == "emit":
         return "OEmit %d %s" % (op[1], coq_val(op[2]))
@@ -224,7 +227,7 @@ def gen_reentrant2(rng):
     n_rs = 0
     while len(kinds) < nsrc + n_nodes:
         non_sinks = [i for i in range(len(kinds)) if kinds[i] not in ("sink", "rsink")]
-        kind = rng.choice(["pipe", "pipe", "pipe", "sink", "sink", "zip", "combine", "rsink"])
+        kind = rng.choice(["pipe", "pipe", "pipe", "sink", "sink", "zip", "combine", "rsink", rng.choice(["zip", "combine", "combine_on", "combine_on0"])])
         if kind == "rsink" and n_rs >= 2:
             kind = "sink"
         if kind in ("sink", "rsink"):
@@ -486,7 +489,7 @@ def oracle(case, obs):
         if op[0] == "drop":
             pass
         for z, t in trig.items():
-            if t is None or (op[0] == "emit" and op[1] == z):      # (an emit AT the node itself goes straight to its downstreams)
+            if t is None or (op[0] in ("emit", "remit") and op[1] == z):      # (an emit AT the node itself goes straight to its downstreams)
                 continue
             emitted = [x for (s_, d, x) in o["deliv"] if s_ == z]
             if emitted and not any(s_ == t and d == z for (s_, d, x) in o["deliv"]):
@@ -581,9 +584,9 @@ def run(prop, tier, seed, replay=None):
                 out.violation(sig, msg, {"case": c})
                 nfind += 1
             break
-    # (combine_latest with an explicit emit_on is not in the Coq topology model: oracle only)
+    # every generated history is compared with the Coq model (combine_latest with an explicit emit_on and re-entrant
+    # edits included)
     cos_all = cos
-    cos = [(c, o) for (c, o) in cos_all if not any(op[0] == "new" and op[1] in ("combine_on", "combine_on0") for op in c["ops"])]
     mism, errors = correspondence("C15", cos)
     for p, o in errors:
         out.violation("C15/correspondence-error", "coqc failed: %s" % o[-300:], {"file": p}, no_input=True)
@@ -593,9 +596,10 @@ def run(prop, tier, seed, replay=None):
     if not proof["ok"]:
         out.violation("C15/proof/%s" % proof["failing"], "proof obligation no longer checks: %s" % proof["failing"],
                       {"theorem_or_file": proof["failing"], "log": proof["log"][-2000:]}, no_input=True)
-    cov = {"evaluations": len(cos_all), "distinct_nontrivial": len(nontriv), "cases_oracle_only(emit_on combine / re-entrant edits)": len(cos_all) - len(cos),
+    cov = {"evaluations": len(cos_all), "distinct_nontrivial": len(nontriv), "cases_oracle_only": len(cos_all) - len(cos),
+           "cases_with_emit_on_combine": sum(1 for (c, o) in cos_all if any(op[0] == "new" and op[1] in ("combine_on", "combine_on0") for op in c["ops"])),
            "cases_with_reentrant_edit": sum(1 for (c, o) in cos_all if any(op[0] == "remit" for op in c["ops"])),
-           "rule": "random histories of node creation, emit, connect, disconnect (incl. non-edges), destroy and drop-reference (+ forced gc) over pipe/sink/zip/combine_latest nodes, no parallel edges, edits before and after data; non-trivial = at least one edit and one delivery",
+           "rule": "random histories of node creation, emit, connect, disconnect (incl. non-edges), destroy and drop-reference (+ forced gc) over pipe/sink/zip/combine_latest (with and without emit_on, by stream and by position) nodes, no parallel edges, edits before and after data; focused backlog / emit_on scenarios; emissions during which a reactive sink edits the graph from inside its callback (focused parent/sibling scenario and random small graphs); non-trivial = at least one edit and one delivery",
            "op_histogram": hist, "traces_validated_against_impl": len(cos) - len(mism), "disagreements_checked": len(mism),
            "samples": [cos[0][0]] if cos else []}
     return out.finish(proof, cov)
